@@ -190,6 +190,7 @@ Proof.
       exists []. rewrite app_nil_r. unfold handle_append_response.
       destruct (t >? term n); [apply step_down_log|].
       destruct (negb _); [reflexivity|].
+      destruct (t <? term n); [reflexivity|].
       destruct success; cbn [fst].
       * unfold try_advance_commit.
         assert (H : forall k m hi, log (try_commit m hi k) = log m).
